@@ -46,12 +46,29 @@ CheckAdd(c, s, e) ==
   ELSE IF c.kind \in {"expavg", "ema"} /\ ~(Le3(lo, e.val) /\ Le3(e.val, hi)) THEN "average left the hull of the samples seen"
   ELSE ""
 
+(* Update(operation): the operation is applied to the stored value and its result is stored (minimum: offered as a *)
+(* sample; variance: only the derived deviation is replaced, the variance itself stays)                             *)
+Zero == <<0, 0, 0>>
+CheckUpdate(c, s, e) ==
+  IF e.twincls # e.cls \/ e.twin # e.val THEN "after Reset the instance differs from a fresh one given the same operations"
+  ELSE IF c.kind \in {"minimum", "single", "expavg", "variance"} /\ (e.arg # e.before \/ e.argcls # e.beforecls) THEN "Update did not apply the operation to the stored value"
+  ELSE IF c.kind \in {"single", "expavg", "ema", "percentile"} /\ (e.val # e.out \/ e.cls # e.outcls) THEN "Update did not store the operation's result"
+  ELSE IF c.kind = "minimum" /\ e.val # (IF e.before = Zero \/ ~Le3(e.before, e.out) THEN e.out ELSE e.before) THEN "minimum: Update did not offer the operation's result as a sample"
+  ELSE IF c.kind = "variance" /\ e.val # e.before THEN "variance: Update changed the variance"
+  ELSE ""
+
+(* Race: an Update parked inside its operation while a second call is made; the instance afterwards (value, and the *)
+(* reply to one more sample) is what one of the two serial orders produces on identically prepared twins            *)
 Init == l = 1 /\ ok = FALSE /\ cfg = [kind |-> "none"] /\ st = [lo |-> None, hi |-> None]
 Rej(e, why) == PrintT(<<"REJECT", ToJson([trace |-> e.trace, line |-> l, why |-> why, kind |-> cfg.kind, logged |-> e])>>)
 Step ==
   /\ l <= Len(Log) /\ l' = l + 1
   /\ LET e == Log[l] IN
      IF e.ev = "Reset" THEN cfg' = e.cfg /\ st' = [lo |-> None, hi |-> None] /\ ok' = TRUE
+     ELSE IF e.ev = "Race"
+     THEN /\ UNCHANGED <<ok, cfg, st>>
+          /\ (e.got # e.ab /\ e.got # e.ba) => PrintT(<<"REJECT", ToJson([trace |-> e.trace, line |-> l, why |-> "an Update overlapping another call left a state neither serial order produces",
+                                                                           kind |-> e.kind, logged |-> e])>>)
      ELSE IF ~ok THEN UNCHANGED <<ok, cfg, st>>
      ELSE IF e.ev = "ResetOp" THEN st' = [lo |-> None, hi |-> None] /\ UNCHANGED <<ok, cfg>>
      ELSE IF e.ev = "Window"
@@ -60,6 +77,12 @@ Step ==
           /\ IF e.a = w /\ e.b = w THEN UNCHANGED ok
              ELSE ok' = FALSE /\ PrintT(<<"REJECT", ToJson([trace |-> e.trace, line |-> l, why |-> "window fold differs from the samples added or depends on their order",
                                                             kind |-> "window", logged |-> e, expected |-> w])>>)
+     ELSE IF e.ev = "Update"
+     THEN LET why == CheckUpdate(cfg, st, e) IN
+          IF why = ""
+          THEN /\ UNCHANGED <<ok, cfg>>
+               /\ st' = IF e.outcls = "ok" THEN [lo |-> IF st.lo = None THEN e.out ELSE Min3(st.lo, e.out), hi |-> IF st.hi = None THEN e.out ELSE Max3(st.hi, e.out)] ELSE st
+          ELSE ok' = FALSE /\ UNCHANGED <<cfg, st>> /\ Rej(e, why)
      ELSE LET why == CheckAdd(cfg, st, e) IN
           IF why = ""
           THEN st' = [lo |-> IF st.lo = None THEN e.x ELSE Min3(st.lo, e.x), hi |-> IF st.hi = None THEN e.x ELSE Max3(st.hi, e.x)] /\ UNCHANGED <<ok, cfg>>
